@@ -87,12 +87,15 @@ impl Emitter {
     }
     /// Record one case: the request line and the implementation's answer (PANIC if it unwinds).
     pub fn case<Fun: FnOnce() -> String>(&mut self, class: &str, req: String, f: Fun) {
+        // the request is on disk before the real code runs: if the process dies (segfault, abort,
+        // allocation failure) the last line of req.txt names the case that killed it
+        writeln!(self.req, "{}", req).unwrap();
+        self.req.flush().unwrap();
         let ans = match catch_unwind(AssertUnwindSafe(f)) {
             Ok(s) => s,
             Err(_) => "PANIC".to_string(),
         };
         debug_assert!(!req.contains('\n') && !ans.contains('\n'));
-        writeln!(self.req, "{}", req).unwrap();
         writeln!(self.ans, "{}", ans).unwrap();
         *self.hist.entry(class.to_string()).or_insert(0) += 1;
         if self.samples.len() < 12 && (self.n % 97 == 0) {
